@@ -38,6 +38,9 @@ func runC01(c *Ctx) {
 	checkMaxHeights(c, "C01")
 	checkWalkBack(c, "C01")
 	checkVoteInfoCarryOver(c, "C01", setP)
+	// the weights and thresholds behind every finality decision come from the store of the
+	// branch being processed, never from memory kept across blocks
+	checkModuleStateless(c, "C01.D1 module-holds-no-state")
 	// R4
 	{
 		ff := factsOf(verify)
@@ -483,43 +486,7 @@ func runC02(c *Ctx) {
 		}
 	}
 
-	// the module object itself carries no state between calls: everything the heights depend
-	// on lives in the store (and is reverted with it). A container or lock in Module/API/
-	// Endpoint is memory that survives a revert and is gone after a restart.
-	if pk := p.PkgByRel["pkg/consensus/liskbft"]; pk != nil {
-		nT := 0
-		for _, tn := range []string{"Module", "API", "Endpoint"} {
-			o := pk.Types.Scope().Lookup(tn)
-			if o == nil {
-				continue
-			}
-			st, ok := o.Type().Underlying().(*types.Struct)
-			if !ok {
-				continue
-			}
-			nT++
-			var bad []string
-			for i := 0; i < st.NumFields(); i++ {
-				f := st.Field(i)
-				switch u := f.Type().Underlying().(type) {
-				case *types.Map, *types.Slice, *types.Chan, *types.Array:
-					bad = append(bad, f.Name()+" "+f.Type().String())
-				case *types.Struct:
-					if m, _ := isMutexType(f.Type()); m || strings.HasPrefix(f.Type().String(), "sync.") {
-						bad = append(bad, f.Name()+" "+f.Type().String())
-					}
-				case *types.Pointer:
-					if m, _ := isMutexType(f.Type()); m {
-						bad = append(bad, f.Name()+" "+f.Type().String())
-					} else if _, isMap := u.Elem().Underlying().(*types.Map); isMap {
-						bad = append(bad, f.Name()+" "+f.Type().String())
-					}
-				}
-			}
-			c.Require("C02.D1 module-holds-no-state", "liskbft."+tn, "-", "the module object has no container or lock field: no memory of earlier blocks outside the (revertible, persistent) store", len(bad) == 0, strings.Join(bad, "; "))
-		}
-		c.MinInstances("C02.D1 module-holds-no-state", nT, 3)
-	}
+	checkModuleStateless(c, "C02.D1 module-holds-no-state")
 
 	// U1: height arithmetic on unsigned integers never wraps into a comparison
 	checkUnsignedDifferences(c, "C02.U1 unsigned-difference-guarded", func(fn *ssa.Function) bool { return strings.HasPrefix(FuncKey(fn), "pkg/consensus/liskbft.") }, c02UnsignedTable, 0)
@@ -590,6 +557,7 @@ func runC02(c *Ctx) {
 		}
 		c.Require("C02.D3 params-lookup-latest-at-or-below", FuncKey(g), p.Pos(g.Pos()), "parameters for a height = highest stored key in [0, height] (reverse scan, limit 1)", ok, "")
 	}
+	checkNextParamsNearest(c, "C02.D3 next-params-lookup-nearest-above")
 	// codec tables of the stored schemas
 	for _, s := range p.schemas() {
 		if s.Owner != bftPkg+".BFTVotes" && s.Owner != bftPkg+".BFTParams" && s.Owner != bftPkg+".GeneratorKeys" && s.Owner != bftPkg+".BFTBlockHeader" && s.Owner != bftPkg+".ActiveValidator" && s.Owner != bftPkg+".BFTValidator" {
@@ -961,4 +929,159 @@ func checkVoteInfoCarryOver(c *Ctx, prop string, setP *ssa.Function) {
 	}
 	c.Require(rule, FuncKey(setP)+": retained validator keeps its entry", p.Pos(setP.Pos()), "the stored entry of a validator found in the current list goes into the new list", nKept >= 1, fmt.Sprintf("%d kept, %d fresh", nKept, nFresh))
 	c.MinInstances(rule, nFresh+nKept, 2)
+}
+
+// checkModuleStateless: the module object itself carries no state between calls: everything
+// the heights depend on lives in the store (and is reverted with it). A container or lock
+// reachable from Module/API/Endpoint — directly, or through structs declared in the package
+// that they point to or embed — is memory that survives a revert (a branch switch) and is
+// gone after a restart.
+func checkModuleStateless(c *Ctx, rule string) {
+	p := c.P
+	pk := p.PkgByRel["pkg/consensus/liskbft"]
+	if pk == nil {
+		return
+	}
+	nT := 0
+	for _, tn := range []string{"Module", "API", "Endpoint"} {
+		o := pk.Types.Scope().Lookup(tn)
+		if o == nil {
+			continue
+		}
+		if _, ok := o.Type().Underlying().(*types.Struct); !ok {
+			continue
+		}
+		nT++
+		var bad []string
+		seen := map[types.Type]bool{}
+		var walk func(t types.Type, path string, depth int)
+		walk = func(t types.Type, path string, depth int) {
+			st, ok := t.Underlying().(*types.Struct)
+			if !ok || seen[t] || depth > 4 {
+				return
+			}
+			seen[t] = true
+			for i := 0; i < st.NumFields(); i++ {
+				f := st.Field(i)
+				name := path + f.Name()
+				ft := f.Type()
+				if m, _ := isMutexType(ft); m || strings.HasPrefix(ft.String(), "sync.") || strings.HasPrefix(ft.String(), "*sync.") || strings.HasPrefix(ft.String(), "sync/atomic.") || strings.HasPrefix(ft.String(), "*sync/atomic.") {
+					bad = append(bad, name+" "+ft.String())
+					continue
+				}
+				switch u := ft.Underlying().(type) {
+				case *types.Map, *types.Slice, *types.Chan, *types.Array:
+					bad = append(bad, name+" "+ft.String())
+				case *types.Struct:
+					if declaredIn(ft, pk.Types) {
+						walk(ft, name+".", depth+1)
+					}
+				case *types.Pointer:
+					switch u.Elem().Underlying().(type) {
+					case *types.Map, *types.Slice, *types.Chan, *types.Array:
+						bad = append(bad, name+" "+ft.String())
+					case *types.Struct:
+						// the three module objects are each examined on their own
+						if n, isN := u.Elem().(*types.Named); isN && (n.Obj().Name() == "Module" || n.Obj().Name() == "API" || n.Obj().Name() == "Endpoint") {
+							continue
+						}
+						if declaredIn(u.Elem(), pk.Types) {
+							walk(u.Elem(), name+".", depth+1)
+						}
+					}
+				}
+			}
+		}
+		walk(o.Type(), "", 0)
+		c.Require(rule, "liskbft."+tn, "-", "the module object reaches no container or lock field (directly or through structs of its own package): no memory of earlier blocks outside the (revertible, persistent) store", len(bad) == 0, strings.Join(bad, "; "))
+	}
+	c.MinInstances(rule, nT, 3)
+}
+
+func declaredIn(t types.Type, pkg *types.Package) bool {
+	n, ok := t.(*types.Named)
+	return ok && n.Obj().Pkg() == pkg
+}
+
+// checkNextParamsNearest: "the next height with new BFT parameters after h" is the *smallest*
+// stored key above h — a forward scan from h+1 with limit 1. The certificate bounds (no commit
+// beyond the block preceding the next validator-set change) and the generator's choice of the
+// height to certify both rest on it; with two pending changes the largest key is a different
+// height.
+func checkNextParamsNearest(c *Ctx, rule string) {
+	p := c.P
+	g := c.Anchor("pkg/consensus/liskbft.(*API).NextHeightBFTParameters")
+	if g == nil {
+		return
+	}
+	gf := factsOf(g)
+	n := 0
+	for _, call := range AllCallsDeep(g) {
+		a := call.Common().Args
+		if call.Common().IsInvoke() {
+			if call.Common().Method.Name() != "Range" {
+				continue
+			}
+		} else if strings.HasSuffix(CalleeName(call.Common()), "diffdb.Database).Range") && len(a) == 5 {
+			a = a[1:] // the receiver comes first in a static method call
+		} else {
+			continue
+		}
+		n++
+		ff := gf
+		if call.Parent() != g {
+			ff = factsOf(call.Parent())
+		}
+		s, lim, rev := gf.Term(a[0]).String(), gf.Term(a[2]).String(), gf.Term(a[3]).String()
+		if call.Parent() != g {
+			// a scan written in a new helper: its direction and limit are the helper's own
+			// constants or what this caller passes
+			lim, rev = ff.Term(a[2]).String(), ff.Term(a[3]).String()
+			for _, v := range []*string{&lim, &rev} {
+				if strings.HasPrefix(*v, "p") {
+					if val, ok := resolveConstArg(p, call.Parent(), *v, g); ok {
+						*v = val
+					}
+				}
+			}
+			s = ""
+			for _, cs := range CallsIn(g, FuncName(call.Parent())) {
+				for _, arg := range cs.Call.Common().Args {
+					if t := gf.Term(arg).String(); strings.Contains(t, " + 1)") {
+						s = "FromUint32(" + t + ")"
+					}
+				}
+			}
+		}
+		ok := strings.Contains(s, "FromUint32((p2 + 1))") && lim == "1" && rev == "false"
+		c.Require(rule, FuncKey(g), p.InstrPos(call), "the next parameter height above h = lowest stored key in [h+1, max] (forward scan from h+1, limit 1)", ok, fmt.Sprintf("start=%s limit=%s reverse=%s", s, lim, rev))
+	}
+	c.MinInstances(rule, n, 1)
+}
+
+// resolveConstArg: the constant passed for parameter pN of fn at its call sites in `from`.
+func resolveConstArg(p *Program, fn *ssa.Function, param string, from *ssa.Function) (string, bool) {
+	idx := 0
+	if _, err := fmt.Sscanf(param, "p%d", &idx); err != nil {
+		return "", false
+	}
+	val := ""
+	for _, s := range p.callSitesOf(fn) {
+		if from != nil && s.Fn != from {
+			continue
+		}
+		a := s.Call.Common().Args
+		if idx >= len(a) {
+			return "", false
+		}
+		at := T(a[idx])
+		if at.Op != "const" {
+			return "", false
+		}
+		if val != "" && val != at.Sym {
+			return "", false
+		}
+		val = at.Sym
+	}
+	return val, val != ""
 }
